@@ -47,11 +47,14 @@ def universe(t, rng, size, pid):
         pid[0] += 1
         vals.append(dict(t="ptr", id=pid[0], v=sub[0]))
         vals.append(dict(vals[1]))
-    elif k in ("gomap", "fpmap"):
+    elif k in ("gomap", "fpmap", "fkmap"):
         sub = universe(t[1], rng, 3, pid)
         vals = [dict(t="map", ks=[], vs=[], nil=False)]
-        if k == "gomap":
+        if k in ("gomap", "fkmap"):
             vals.append(dict(t="map", ks=[], vs=[], nil=True))
+        if k == "fkmap":
+            # key 9 is NaN
+            vals += [dict(t="map", ks=[9], vs=[sub[-1]], nil=False), dict(t="map", ks=[1, 9], vs=[sub[0], sub[-1]], nil=False)]
         vals += [dict(t="map", ks=[1], vs=[sub[0]], nil=False), dict(t="map", ks=[2], vs=[sub[0]], nil=False)]
         if len(sub) >= 2:
             vals += [dict(t="map", ks=[1], vs=[sub[1]], nil=False), dict(t="map", ks=[1, 2], vs=[sub[0], sub[1]], nil=False),
